@@ -8,7 +8,8 @@ input  i : {"ev": "completion" | "ranking" | "custom",
             "wl": [class...],          -- the whitelist the live evaluator object checks against
             "expr": text, "tree": T | null,   -- T = [class, payload, [T...]]: ast.parse(text.strip(), mode='eval')
             "vars": [[name, truthy]...]}      -- supplied variables (side-effect canaries)
-observed o / model m :
+        or a history {"seq": [i1, i2, ...]} of such calls made in order in one process
+observed o / model m :   (for a history: {"seq": [o1, o2, ...]})
    {"res": "syntax", "log": []} | {"res": "reject", "kind": K, "log": [...]}
  | {"res": "value", "val": V, "log": [...]} | {"res": "nameerror", "name": x, "log": [...]}
  | {"res": "raise", "exc": T, "log": [...]}           (implementation only)
@@ -175,10 +176,29 @@ def judge (c : Case) (o : Json) : Verdict := Id.run do
       -- "raise": a run-time error of an accepted expression (allowed: "this may raise runtime errors")
       return ⟨true, ""⟩
 
+/-- A history `{"seq": [call...]}` (calls made in this order in ONE process, observed as
+`{"seq": [observation...]}`): the property does not let an answer depend on earlier calls, so every
+call is modelled (`runSeq` = `run` call by call) and judged exactly as if it were made alone. -/
 def handle (i o : Json) : Except String Reply := do
-  let c ← parseCase i
-  let v := judge c o
-  return { model := modelOut c, holds := v.ok, why := v.why }
+  match jArrField? i "seq" with
+  | none =>
+    let c ← parseCase i
+    let v := judge c o
+    return { model := modelOut c, holds := v.ok, why := v.why }
+  | some calls =>
+    let cs ← calls.mapM parseCase
+    let obs := (jArrField? o "seq").getD []
+    let model := Json.mkObj [("seq", jOfList modelOut cs)]
+    if obs.length != cs.length then
+      return { model := model, holds := false, why := "wrong number of observations for the history" }
+    let verdicts := (cs.zip obs).map fun (c, ob) => judge c ob
+    let idx := verdicts.findIdx? fun v => !v.ok
+    match idx with
+    | none => return { model := model, holds := true }
+    | some k =>
+      let v := verdicts.getD k ⟨false, ""⟩
+      return { model := model, holds := false,
+               why := s!"{v.why} [call {k + 1} of {cs.length} in one process; the same call made alone is judged the same way]" }
 
 end CylcModel.DrvC24
 
